@@ -765,3 +765,24 @@ Proof.
     unfold Int32ToRegsSwapWords. rewrite (go_RegsToInt32SwapWords_is_model _ (u32_to_regs_ok true _ Hu) Hl2). f_equal.
     exact (proj1 (int32_inverse true) zs Hok).
 Qed.
+
+Lemma put_array_bytes vs : Forall byte_ok (PutUint16Array vs).
+Proof.
+  unfold PutUint16Array. induction vs as [|v vs IH]; [constructor|]. cbn [flat_map app].
+  constructor; [|constructor; [|exact IH]]; unfold byte_ok, hi8, lo8; apply N.mod_lt; discriminate.
+Qed.
+
+Theorem printed_uint16_array_inverse vs : Forall u16_ok vs -> len_ok2 vs ->
+  exists d, srun go_modbus_PutUint16Array [map Z.of_N vs] = Some d /\ srun go_modbus_Uint16Array [d] = Some (map Z.of_N vs).
+Proof.
+  intros Hok Hlen. exists (map Z.of_N (PutUint16Array vs)).
+  assert (Hl0 : len_ok vs) by (unfold len_ok2, len_ok in *; lia).
+  split; [exact (go_PutUint16Array_is_model vs Hok Hl0)|].
+  assert (Hl1 : len_ok (PutUint16Array vs)).
+  { unfold len_ok, len_ok2 in *. unfold PutUint16Array.
+    assert (Hn : List.length (flat_map (fun v => [hi8 v; lo8 v]) vs) = (2 * List.length vs)%nat).
+    { clear. induction vs as [|v vs IH]; [reflexivity|]. cbn [flat_map app List.length]. rewrite IH. lia. }
+    rewrite Hn. lia. }
+  rewrite (go_Uint16Array_is_model _ (put_array_bytes vs) Hl1). f_equal. f_equal.
+  exact (proj1 uint16_array_inverse vs Hok).
+Qed.
